@@ -224,6 +224,22 @@ CLAIMED = {
         technique="contract-based deductive verification over a ghost file system (pyvc) + set-iteration audit as "
                   "determinism obligations",
     ),
+    'C32': dict(
+        category='proof', engine='pyvc',
+        text="ffiplatform._flatten is verified for every kind of object it accepts: str -> '<len>s<chars>', int -> "
+             "'<value>i', list/tuple -> '<n>l' + items in order, dict -> '<n>d' + key/value pairs in sorted key order "
+             "(the two insertion orders of a two-key dict give the same text, so keyword order cannot matter), "
+             "anything else -> TypeError; prefix-freeness lemmas (unique decodability of the str and int encodings, "
+             "no shared prefix between them) are discharged by cvc5; an audit shows no set iteration, hash() or "
+             "id() on the key path of ffiplatform.py / verifier.py.",
+        design_ref='DESIGN.md section 4 C32',
+        note="Trusted: z3/cvc5 string theories; vf/pyexec.py; A-FMT axioms on '%d'. Injectivity for nested containers "
+             "is the structural induction over the leaf lemmas (not mechanised). Not decided: Verifier.__init__ itself "
+             "(NUL-joined components, CRC32 halves); the NUL join is not injective when a component contains U+0000 "
+             "(recorded divergence).",
+        technique="contract-based deductive verification of the real _flatten per object kind + SMT prefix-freeness "
+                  "lemmas + set-iteration audit",
+    ),
     'C25': dict(
         category='proof',
         text="search_sorted (the binary search behind all four runtime lookups) is verified with a loop invariant "
